@@ -36,6 +36,7 @@ type RealResult struct {
 	Log         []Entry
 	CacheOps    []CacheOp
 	Hung        bool
+	Unstable    string // an event payload that reads differently after the execution than when it was delivered
 }
 
 type StepResult struct {
@@ -210,6 +211,7 @@ func (r *Runner) exec(st Step, res *StepResult) {
 	r.W.Cache.TakeOps()
 	real := r.runReal(st, id)
 	real.Log = r.W.Rec.Snapshot()
+	real.Unstable = r.W.Rec.Unstable()
 	real.CacheOps = r.W.Cache.TakeOps()
 	res.Real = real
 	r.compareExec(st, pred, real, id, res)
@@ -346,6 +348,9 @@ func (r *Runner) compareExec(st Step, pred *Prediction, real *RealResult, id int
 	// ---- compare ----
 	if real.Hung {
 		bad("liveness", "the function stayed blocked for 30s beneath an always-fires timeout of %v", FireLimit)
+	}
+	if real.Unstable != "" {
+		bad("stats/snapshot", "an event is not a snapshot: %s", real.Unstable)
 	}
 	if pred.Lenient != "" {
 		// the statement leaves the continuation open (DESIGN.md L1 / L5): only what holds either way is checked
